@@ -14,6 +14,15 @@ HARNESS = ("harness/cmd/vharness (Go, built against /repo's working tree with -t
 NOT_APPLICABLE = {}
 
 PROPS = {
+    "C13": {
+        "design_ref": "DESIGN.md section 6 (C13)",
+        "projection": "handler invocation sequence, logged drops, dispatched count",
+        "mismatch_is_input": True,
+        "level_text": "Coq theorems on the reader/dispatcher pair around the bounded receive queue (Model/Dispatch.v) for every interleaving of their steps, every queue size, every subscription table and every mix of frames: handler invocations = the taken frames in arrival order, each push once to every handler of its command in subscription order and to no other; at quiescence that is every accepted frame; accepted = received minus the logged drops, in order; a drop happens only when the queue is full; control commands never reach subscribers. Tie: scripted bursts over TCP and WebSocket with a blocking first handler so the queue overflows deterministically, queue sizes 1..16, compared with the model; delivery across drop+recovery checked by direct oracle.",
+        "level_note": "Trusted: kernel, extraction, harness. Per connection; the order between the old and the new connection's dispatcher across a reconnect is checked by scenario only.",
+        "assumptions": ["Go channel = FIFO queue with non-blocking send failing when full", "handlers are registered before Dial (documented)"],
+        "modelled": "tcpConn/wsConn.OnPacket dispatcher, addPacket, client.onPacket/handleControl/handlePush/Subscribe",
+    },
     "C05": {
         "design_ref": "DESIGN.md section 6 (C05)",
         "projection": "each call's result; no-receiver / duplicate / unsupported log counts",
